@@ -390,7 +390,11 @@ class Interp:
                 for n in names:
                     a, b = e1.vars[n], e2.vars[n]
                     if ops.is_intlike(a) and ops.is_intlike(b) and not (isinstance(a, (bool, SBool)) or isinstance(b, (bool, SBool))):
-                        merged[n] = mk_int(z3.If(cond, T(a), T(b)))
+                        d = const_of(simp(T(a) - T(b)))
+                        if d is not None:
+                            merged[n] = mk_int(T(b) + z3.If(cond, I(d), I(0))) if d != 0 else b
+                        else:
+                            merged[n] = mk_int(z3.If(cond, T(a), T(b)))
                     elif isinstance(a, (bool, SBool)) and isinstance(b, (bool, SBool)):
                         merged[n] = mk_bool(z3.If(cond, B(a), B(b)))
                     else:
